@@ -20,5 +20,16 @@ rep = {"@WT@": wt, "@OUT@": out, "@PID@": pid, "@TITLE@": p.get("title", ""), "@
        "@QUANT@": (p.get("quantifier") or {}).get("text", ""), "@FILES@": files, "@N@": n}
 for k, v in rep.items():
     t = t.replace(k, str(v))
+if tag:
+    # later rounds: ask for changes different in kind from the ones already kept (titles only)
+    import glob
+    prev = []
+    for mp in sorted(glob.glob("/verif/seeded/%s-*/meta.json" % pid)):
+        m = json.load(open(mp))
+        prev.append("  - %s (%s)" % (m.get("title", "?"), ", ".join((m.get("confirmed_by_integrator") or {}).get("touched", []))))
+    if prev:
+        t = t.replace("YOUR TASK:", "Other engineers have ALREADY produced the following changes for this property; yours must be different in kind "
+                      "(other functions, other clauses of the property, other triggering conditions — not variations of these):\n" + "\n".join(prev) + "\n\nYOUR TASK:", 1)
+    t += "\n(The machine is heavily loaded by other jobs: give go test generous timeouts. Never let go rewrite a go.mod or go.sum: if your demo would need a module that is only an indirect requirement, pick another way. Name your result directories m1, m2, m3 as described.)\n"
 open("/verif/work/mutprompt_%s%s.txt" % (pid, tag), "w").write(t)
 print(wt, out)
